@@ -12,11 +12,22 @@ import tempfile
 
 import numpy as np
 
-_STATE = {"armed": False, "root": None, "log": None, "count": 0, "fail_at": None, "fired": False}
+_STATE = {"armed": False, "root": None, "root2": None, "log": None, "count": 0, "fail_at": None, "fired": False}
 _INSTALLED = False
 
 _EVENTS = {"open", "os.mkdir", "os.remove", "os.rename", "os.rmdir", "shutil.rmtree", "tempfile.mkdtemp",
            "os.truncate", "os.link", "os.symlink", "shutil.copyfile", "shutil.move"}
+
+
+XDEV = "/dev/shm"
+
+
+def xdev_available():
+    """Is there a writable directory on another device than the scratch area?"""
+    try:
+        return os.access(XDEV, os.W_OK) and os.stat(XDEV).st_dev != os.stat(tempfile.gettempdir()).st_dev
+    except OSError:
+        return False
 
 
 class InjectedFault(OSError):
@@ -42,7 +53,7 @@ def _hook(event, args):
     elif event == "os.mkdir" and len(args) > 2:
         dir_fd = args[2]
     root = st["root"]
-    inside = p.startswith(root) or (dir_fd is not None and not os.path.isabs(p))
+    inside = p.startswith(root) or (dir_fd is not None and not os.path.isabs(p)) or bool(st.get("root2") and p.startswith(st["root2"]))
     if not inside:
         return
     mode = ""
@@ -96,12 +107,16 @@ def _synth(tag):
 class Env:
     """A scratch world with its own temp dir; sessions run inside with synthetic parts."""
 
-    def __init__(self):
+    def __init__(self, xdev=False):
         self.oldtmp = tempfile.tempdir
         self.root = pathlib.Path(tempfile.mkdtemp(prefix="eko-verif-fault-"))
-        (self.root / "tmp").mkdir()
+        self.tmp = self.root / "tmp"
+        if xdev:
+            # the temporary area on another file system than the output folder (TMPDIR on a tmpfs is common)
+            self.tmp = pathlib.Path(tempfile.mkdtemp(prefix="eko-verif-fault-", dir=XDEV))
+        self.tmp.mkdir(exist_ok=True)
         (self.root / "out").mkdir()
-        tempfile.tempdir = str(self.root / "tmp")
+        tempfile.tempdir = str(self.tmp)
         self.path = self.root / "out" / "e.tar"
         self.path2 = self.root / "out2" / "copy.tar"
         (self.root / "out2").mkdir()
@@ -112,6 +127,7 @@ class Env:
     def close(self):
         tempfile.tempdir = self.oldtmp
         shutil.rmtree(self.root, ignore_errors=True)
+        shutil.rmtree(self.tmp, ignore_errors=True)
 
     # -- the two sessions -------------------------------------------------------------
     def _patch_parts(self):
@@ -221,7 +237,9 @@ class Env:
         event, p, mode, dst = rec
         arch = str(self.path2 if getattr(self, "kind", "") == "copy" else self.path)
         outdir = str(pathlib.Path(arch).parent)
-        tmpdir = str(self.root / "tmp")
+        tmpdir = str(self.tmp)
+        if p.startswith(tmpdir + os.sep) and dst != arch:
+            return "tmp"
         if p == arch:
             if event == "os.remove":
                 return "unlink"
@@ -244,10 +262,45 @@ class Env:
 INTERRUPTS = {"kbdint": KeyboardInterrupt, "sysexit": SystemExit, "genexit": GeneratorExit}
 
 
-def run_session(kind, fail_at=None, compute_fail_at=None, tar_member_fail=None, retry_fail_at=None, compute_exc=None):
+def _bulk_wrappers(st_bulk):
+    """Count (and fail, with ENOSPC) the calls of the stdlib's bulk data transfers: a failure in the middle of
+    writing a file, which no audit event marks."""
+    import errno
+
+    saved = {}
+
+    def wrap(mod, name):
+        orig = getattr(mod, name, None)
+        if orig is None:
+            return
+        saved[(mod, name)] = orig
+
+        def f(*a, **kw):
+            if st_bulk["armed"]:
+                st_bulk["n"] += 1
+                if st_bulk["fail_at"] == st_bulk["n"]:
+                    st_bulk["fired"] = True
+                    raise OSError(errno.ENOSPC, "injected: no space left on device (bulk transfer %d, %s)" % (st_bulk["n"], name))
+            return orig(*a, **kw)
+
+        setattr(mod, name, f)
+
+    wrap(os, "sendfile")
+    wrap(os, "copy_file_range")
+    wrap(shutil, "copyfileobj")
+
+    def restore():
+        for (mod, name), orig in saved.items():
+            setattr(mod, name, orig)
+
+    return restore
+
+
+def run_session(kind, fail_at=None, compute_fail_at=None, tar_member_fail=None, retry_fail_at=None, compute_exc=None, xdev=False,
+                bulk_fail=None):
     """Run one session in a fresh world; returns dict(steps, raised, arc, retry, n, fired)."""
     install()
-    env = Env()
+    env = Env(xdev=xdev)
     env.kind = kind
     st = _STATE
     try:
@@ -256,7 +309,7 @@ def run_session(kind, fail_at=None, compute_fail_at=None, tar_member_fail=None, 
             env.compute_calls = 0
         env.compute_fail_at = compute_fail_at
         env.compute_exc = INTERRUPTS.get(compute_exc, RuntimeError)
-        st.update(armed=True, root=str(env.root), log=[], count=0, fail_at=fail_at, fired=False)
+        st.update(armed=True, root=str(env.root), root2=str(env.tmp) if xdev else None, log=[], count=0, fail_at=fail_at, fired=False)
         raised = ""
         orig_addfile = tarfile.TarFile.addfile
         calls = {"n": 0}
@@ -274,15 +327,19 @@ def run_session(kind, fail_at=None, compute_fail_at=None, tar_member_fail=None, 
                 calls["n"] += 1
                 return orig_addfile(self, tarinfo, fileobj)
             tarfile.TarFile.addfile = addfile
+        bulk = {"armed": True, "n": 0, "fail_at": bulk_fail, "fired": False}
+        restore_bulk = _bulk_wrappers(bulk)
         try:
             {"new": env.session_new, "edit": env.session_edit, "copy": env.session_copy}[kind]()
         except BaseException as ex:  # noqa: BLE001
             raised = type(ex).__name__
         finally:
             st["armed"] = False
+            bulk["armed"] = False
+            restore_bulk()
             tarfile.TarFile.addfile = orig_addfile
         log = list(st["log"])
-        fired = st["fired"] or (compute_fail_at is not None and raised != "")
+        fired = st["fired"] or bulk["fired"] or (compute_fail_at is not None and raised != "")
         steps = [env.classify_step(r) for r in log]
         arc = env.classify_archive(kind)
         orig_intact = True
@@ -308,7 +365,7 @@ def run_session(kind, fail_at=None, compute_fail_at=None, tar_member_fail=None, 
             return env.classify_archive("edit") == "new"
 
         if retry_fail_at is not None:
-            st.update(armed=True, root=str(env.root), log=[], count=0, fail_at=retry_fail_at, fired=False)
+            st.update(armed=True, root=str(env.root), root2=str(env.tmp) if xdev else None, log=[], count=0, fail_at=retry_fail_at, fired=False)
             try:
                 again()
             except BaseException:  # noqa: BLE001
@@ -322,7 +379,7 @@ def run_session(kind, fail_at=None, compute_fail_at=None, tar_member_fail=None, 
             retry = False
         return {"kind": kind, "steps": steps, "raised": raised, "arc": arc, "retry": retry, "origIntact": bool(orig_intact),
                 "arc2nd": arc_after_second,
-                "n": len(log), "fired": bool(fired), "members": calls["n"], "computes": env.compute_calls}
+                "n": len(log), "fired": bool(fired), "members": calls["n"], "computes": env.compute_calls, "bulk": bulk["n"]}
     finally:
         st["armed"] = False
         env.close()
